@@ -495,6 +495,34 @@ def gen_c08(rng, tier):
 EXTRA_C08_GENS = []
 
 
+def gen_c08_kernels(rng, tier):
+    """kernels applied in parallel on small graphs under ASan: the node-index tables, the level
+    offsets and the block partition (many threads, small ranges, minimum block sizes that force the
+    block count to be recomputed) must stay inside their tables"""
+    out = []
+    for k in range(counts_fixed(tier, 40, 300)):
+        r = rng.random()
+        if r < 0.5:
+            g = gen.raster(rng, 2, 6, cache=rng.random() < 0.5)
+        elif r < 0.8:
+            g = gen.profile(rng, 2, 24, cache=rng.random() < 0.5)
+        else:
+            g = gen.mesh(rng, 2, 5)
+        fam = rng.choice([["single"], ["pflood", "single"], ["single", "mst:k:carve"], ["single", "multi:" + hx(1.0)]])
+        body = []
+        for u in range(rng.randint(1, 2)):
+            body.append("update " + gen.hexes(gen.elevation(rng, g)))
+            for d in ("any", "bfs", "dfs"):
+                for _ in range(3):
+                    body.append("kernel %s %d %d %d" % (d, rng.choice([2, 3, 5, 6, 7, 8, 12, 16]), rng.choice([0, 1, 2, 3, 4, 5, 7]),
+                                                        rng.choice([0, 1, 2, 1000])))
+        out.append(("k%d" % k, [g.line(), "graph " + " ".join(fam)] + body))
+    return out
+
+
+EXTRA_C08_GENS.append(gen_c08_kernels)
+
+
 def c08_runner(P, exe, model_ok, rng, tier, replay=None):
     res = generic_runner(P, exe, model_ok, rng, tier, replay)
     seen = {}
